@@ -53,7 +53,13 @@ def main():
             subprocess.run(["rm", "-rf", os.path.join(VERIF, ".cache", "harness", tag + suf)])
         subprocess.run(["rm", "-rf", os.path.join(VERIF, ".cache", "coq-" + tag), os.path.join(VERIF, ".cache", "evidence-" + tag)])
         subprocess.run("rm -rf " + os.path.join(VERIF, ".cache", "ocaml", "*-" + tag), shell=True)
-    meta["ran"] = {p: "./check %s --tier %s (VERIF_REPO=scratch worktree with the patch)" % (p, tier) for p in props}
+    # merge with the results of earlier runs for OTHER properties (a run replaces only the properties it ran)
+    merged = dict(meta.get("results") or {})
+    merged.update(res)
+    res = merged
+    ran = dict(meta.get("ran") or {}) if isinstance(meta.get("ran"), dict) else {}
+    ran.update({p: "./check %s --tier %s (VERIF_REPO=scratch worktree with the patch)" % (p, tier) for p in props})
+    meta["ran"] = ran
     meta["caught_by"] = sorted(p for p in res if res[p]["exit"] == 1 and any("no-failing-input-found" not in v for v in res[p]["violations"]))
     meta["caught_without_input_by"] = sorted(p for p in res if res[p]["exit"] == 1 and p not in meta["caught_by"])
     meta["missed_by"] = sorted(p for p in res if res[p]["exit"] == 0)
